@@ -172,9 +172,28 @@ class Session:
         self._sess_cm.__enter__()
         hist = InMemoryHistory(list(cfg.get("history", [])))
         kw = {}
-        if cfg.get("completer"):
+        self.gate = None
+        if cfg.get("completer") == "gated":
+            # a slow asynchronous completer: answers only after the driver releases the gate
+            from prompt_toolkit.completion import Completer, Completion
+            self.gate = asyncio.Event()
+            gate = self.gate
+
+            class Gated(Completer):
+                def get_completions(self, document, complete_event):
+                    return iter(())
+
+                async def get_completions_async(self, document, complete_event):
+                    await gate.wait()
+                    w = document.get_word_before_cursor()
+                    for c in ["alpha", "alpine", "beta", "界面"]:
+                        if c.startswith(w):
+                            yield Completion(c, -len(w))
+            kw["completer"] = Gated()
+            kw["complete_while_typing"] = bool(cfg.get("complete_while_typing"))
+        elif cfg.get("completer"):
             kw["completer"] = WordCompleter(["alpha", "alpine", "beta", "界面"])
-            kw["complete_while_typing"] = False
+            kw["complete_while_typing"] = bool(cfg.get("complete_while_typing"))
         s = PromptSession(editing_mode=EditingMode.VI if cfg["mode"] == "vi" else EditingMode.EMACS,
                           multiline=bool(cfg.get("multiline")), history=hist,
                           interrupt_exception=_Abort, eof_exception=_Eof, **kw)
@@ -538,7 +557,17 @@ def _run_case(cfg, keys, yield_every=0, per_key=None, instrument=None):
                     break
                 if before["done"]:
                     break
-                exc = s.key(tok)
+                if tok in ("<yield>", "<release>"):
+                    # not a key: let the event loop run (background completer, renders);
+                    # <release> first lets the slow completer answer
+                    if tok == "<release>" and s.gate is not None:
+                        s.gate.set()
+                    for _ in range(8):
+                        await asyncio.sleep(0)
+                    s.last_handler = None
+                    exc = None
+                else:
+                    exc = s.key(tok)
                 try:
                     after = s.observe()
                 except Exception as e:  # noqa - the editor state cannot even be read any more
